@@ -732,8 +732,8 @@ var c40Methods = []string{"GET", "POST", "PUT", "PATCH", "DELETE", "HEAD", "OPTI
 // of its route (so that state exists and handlers run deep); the others are hostile in 1..4 dimensions.
 func (g *c40Gen) request(rng *rand.Rand, users []string) c40Req {
 	rt := g.routes[rng.Intn(len(g.routes))]
-	for strings.HasSuffix(rt.Endpoint, "/admin/logon") && rng.Intn(5) != 0 {
-		rt = g.routes[rng.Intn(len(g.routes))] // every successful logon is an argon2id token encryption (64 MiB): one fifth of the uniform share
+	for strings.HasSuffix(rt.Endpoint, "/admin/logon") && rng.Intn(10) != 0 {
+		rt = g.routes[rng.Intn(len(g.routes))] // every successful logon is an argon2id token encryption (64 MiB): one tenth of the uniform share
 	}
 
 	tags := []string{}
